@@ -140,7 +140,7 @@ func runC19(c *Ctx) {
 		if call, ok := mloop.OverVal.(*ssa.Call); ok && call.Call.StaticCallee() == vta {
 			okOver = cur(call.Call.Args[0]) && isResultOfInvoke(call.Call.Args[1], "Versions", -1)
 		}
-		c.Check("C19-R1", "loop-over-VersionsToApply(stored,table)", mloop.Header.Instrs[0].Pos(), okOver && mloop.Kind == "rangeindex",
+		c.Check("C19-R1", "loop-over-VersionsToApply(stored,table)", mloop.Header.Instrs[0].Pos(), okOver && (mloop.Kind == "rangeindex" || mloop.Kind == "forindex"),
 			"the migrations applied are not the in-order range over VersionsToApply(stored version, manager's table)")
 		exits := mloop.EarlyExits(p)
 		c.Check("C19-R1", "all-pending-migrations-run", mloop.Header.Instrs[0].Pos(), len(exits) == 0, "the migration loop can be left early without an error: "+strings.Join(exits, "; "))
